@@ -16,6 +16,49 @@ use serde_derive::{Deserialize, Serialize};
 pub struct Attempt {
 	pub val: Val,
 	pub pres: PresCfg,
+	/// entry point that uses the configuration: 0 = to_datum, 1 = to_single_object, 2 = a container Writer built on it
+	#[serde(default)]
+	pub via: u8,
+}
+
+/// one attempt through the chosen entry point; returns (result, serde calls, poison fired, poison depth)
+fn attempt_via(
+	via: u8,
+	cfg: &mut SerializerConfig<'_>,
+	env: &Env,
+	ty: &Ty,
+	val: &Val,
+	pres: PresCfg,
+	poison: Option<Poison>,
+	sink: SimSink,
+) -> (Result<(), String>, usize, bool, u32) {
+	use crate::val::{PresCtx, Presented};
+	match via {
+		1 => {
+			let ctx = PresCtx::new(env, pres, poison);
+			let r = serde_avro_fast::to_single_object(&Presented::new(val, ty, &ctx), sink, cfg);
+			(r.map(|_| ()).map_err(|e| e.to_string()), ctx.calls.get(), ctx.poison_fired.get(), ctx.poison_depth.get())
+		}
+		2 => {
+			use serde_avro_fast::object_container_file_encoding::WriterBuilder;
+			let ctx = PresCtx::new(env, pres, poison);
+			let built = WriterBuilder::new(cfg).sync_marker([7; 16]).build(sink);
+			let r = match built {
+				Err(e) => Err(e.to_string()),
+				Ok(mut w) => {
+					let r1 = w.serialize(Presented::new(val, ty, &ctx)).map_err(|e| e.to_string());
+					// into_inner rather than drop: a failing flush inside Drop panics on purpose in debug builds
+					let r2 = w.into_inner().map(|_| ()).map_err(|e| e.to_string());
+					r1.and(r2)
+				}
+			};
+			(r, ctx.calls.get(), ctx.poison_fired.get(), ctx.poison_depth.get())
+		}
+		_ => {
+			let (r, calls, fired, depth) = world::crate_encode_to(cfg, env, ty, val, pres, poison, sink);
+			(r.map(|_| ()), calls, fired, depth)
+		}
+	}
 }
 
 #[derive(Clone, Debug, Serialize, Deserialize, PartialEq)]
@@ -123,14 +166,20 @@ impl Prop for C14 {
 			if pres.bytes_as_seq {
 				pres.len_none = rng.chance(3, 4);
 			}
-			attempts.push(Attempt { val: v, pres });
+			let via = match rng.below(6) {
+				0 => 1,
+				1 => 2,
+				_ => 0,
+			};
+			attempts.push(Attempt { val: v, pres, via });
 		}
 		let last = attempts.last().unwrap().val.clone();
 		let probes = vec![
-			Attempt { val: last.clone(), pres: PresCfg::plain() },
+			Attempt { val: last.clone(), pres: PresCfg::plain(), via: 0 },
 			Attempt {
 				val: val::gen_val(rng, &env, &schema, &vcfg),
 				pres: PresCfg { seed: rng.next_u64(), reorder: true, omit_nullable: false, record_as_map: false, len_none: allow_slow, bytes_as_seq: allow_slow },
+				via: 0,
 			},
 		];
 		Scn {
@@ -156,10 +205,11 @@ impl Prop for C14 {
 		let mut clean: Vec<Clean> = vec![];
 		for (i, a) in scn.attempts.iter().enumerate() {
 			let mut cfg = new_config(&schema, scn.allow_slow);
-			let r = catch(|| world::crate_encode_to(&mut cfg, &env, &scn.schema, &a.val, a.pres, None, Vec::new()));
+			let clean_sink = SimSink::all();
+			let r = catch(|| attempt_via(a.via, &mut cfg, &env, &scn.schema, &a.val, a.pres, None, clean_sink.clone()));
 			out.evals += 1;
 			match r {
-				Ok((Ok(b), calls, _, _)) => clean.push(Clean { bytes: b, calls }),
+				Ok((Ok(()), calls, _, _)) => clean.push(Clean { bytes: clean_sink.accepted(), calls }),
 				Ok((Err(e), ..)) => {
 					// a conforming value that does not serialize on a fresh configuration is C01/C02's business
 					out.count("skipped_attempt_fails_on_fresh_config", 1);
@@ -204,13 +254,13 @@ impl Prop for C14 {
 						SimSink::new(AcceptPlan::Fixed(1), false).with_faults(vec![SinkFault { at_call: *after_bytes, kind: SinkFaultKind::Hard(*kind) }]),
 					),
 				};
-				let r = catch(|| world::crate_encode_to(&mut cfg, &env, &scn.schema, &a.val, a.pres, poison, sink.clone()));
+				let r = catch(|| attempt_via(a.via, &mut cfg, &env, &scn.schema, &a.val, a.pres, poison, sink.clone()));
 				out.evals += 1;
 				out.steps += sink.calls();
 				digest.u64(sink.digest());
 				let what = || format!("history {h:?}, attempt {j}");
 				let (res, fired, depth) = match r {
-					Ok((res, _calls, fired, depth)) => (res.map(|_| ()), fired, depth),
+					Ok((res, _calls, fired, depth)) => (res, fired, depth),
 					Err(p) => {
 						out.fail(format!("C14:panic:during-attempt:{}", panic_site(&p)), format!("{}: {p}", what()));
 						break 'hist;
@@ -374,8 +424,9 @@ fn enumerate_histories(scn: &Scn) -> Option<Vec<Vec<FaultPoint>>> {
 	let mut clean = vec![];
 	for a in &scn.attempts {
 		let mut cfg = new_config(&schema, scn.allow_slow);
-		match catch(|| world::crate_encode_to(&mut cfg, &env, &scn.schema, &a.val, a.pres, None, Vec::new())) {
-			Ok((Ok(b), calls, _, _)) => clean.push(Clean { bytes: b, calls }),
+		let clean_sink = SimSink::all();
+		match catch(|| attempt_via(a.via, &mut cfg, &env, &scn.schema, &a.val, a.pres, None, clean_sink.clone())) {
+			Ok((Ok(()), calls, _, _)) => clean.push(Clean { bytes: clean_sink.accepted(), calls }),
 			_ => return None,
 		}
 	}
